@@ -19,7 +19,7 @@ def P(level, modules, explanation, builds=None, builds_thorough=None, partial=No
 PROPS = {
     'C01': P('proof', ['C01'], 'decode = H.273: model-level theorems (see theorems) + bit-exact correspondence of the model with Rgb::try_from(&Yuv) on all 126+14 configurations + f64 oracle search'),
     'C02': P('proof', ['C02'], 'encode rounds to nearest code: theorems + correspondence of Yuv::try_from((&Rgb,cfg)) + exact oracle search'),
-    'C03': P('proof', ['C03'], 'transfer curves: identity/alias theorems, anchors by kernel evaluation, accuracy theorems as listed + correspondence on all 19 transfer values + f64 oracle search', partial=['accuracy 2.5e-4 (PQ 5.7e-4) over all floats of [0,1] for the 13 non-trivial curves: not proved; covered by bit-exact correspondence + f64 oracle (exhaustive in the thorough tier)']),
+    'C03': P('proof', ['C03', 'C03b', 'C03c'], 'transfer curves: identity/alias theorems, anchors by kernel evaluation, accuracy theorems as listed + correspondence on all 19 transfer values + f64 oracle search', partial=['accuracy 2.5e-4 over all floats of [0,1] is PROVED for the power-law family and xvYCC (BT.1886 + 4 aliases, BT.470M, BT.470BG, xvYCC; both directions); for sRGB, Log100/316, HLG and PQ (5.7e-4) it is not proved and is covered by bit-exact correspondence + f64 oracle (exhaustive in the thorough tier)']),
     'C04': P('proof', ['C04'], 'XYB forward = opsin definition within 2e-6: theorem for every admissible pixel (fastmath build) + bit-exact correspondence + f64 oracle', partial=['fastmath off: cbrtf is libm (model parameter); correspondence + oracle']),
     'C05': P('proof', ['C05'], 'XYB round trip within 5e-5 on the unit cube: theorem for every pixel (fastmath build) + bit-exact correspondence + f64 oracle', partial=['fastmath off: cbrtf is libm (model parameter); correspondence + oracle']),
     'C06': P('proof', ['C06'], 'primaries conversion: theorems (identical primaries bit-exact, evaluated matrices) + correspondence on all 14 primaries + f64 CIE oracle', partial=['there-and-back within 1e-5 for every pixel: evaluated for white only; correspondence + f64 oracle']),
@@ -34,9 +34,9 @@ PROPS = {
     'C15': P('proof', ['C15'], 'Unspecified resolution: mpv table for all sizes, label theorems + exhaustive correspondence + content oracle'),
     'C16': P('proof', ['C16'], 'neutral axis and anchors: exhaustive/evaluated theorems + correspondence on every luma code + search'),
     'C17': P('proof', ['C17', 'C17b', 'C17c', 'C17d', 'C17e', 'C17f'], 'HSL: range, accuracy, anchor and round-trip theorems for every pixel of the unit cube + correspondence + f64 hexcone oracle'),
-    'C18': P('proof', ['C18'], 'fast math helpers: totality for every bit pattern, oddness, range theorems; accuracy theorems as listed + correspondence + search', partial=['cbrtf: proved in relative form (2^-24 + 1e-11) for every normal argument; bit-exact oddness not proved', 'powf 2.5e-4+8e-6|y|, expf 1e-5 and its overflow/underflow ranges: not proved; correspondence + oracle (all 2^32 arguments in the thorough tier)']),
+    'C18': P('proof', ['C18'], 'fast math helpers: totality for every bit pattern; accuracy theorems for cbrtf, powf, expf, exp2, log2 (kernel-only) + correspondence + search', partial=['cbrtf accuracy is proved in relative form (2^-24 + 1e-11) for every normal argument; bit-exact oddness of cbrtf and the saturation clauses of expf (+inf above 89, 0 below -88) are not proved: correspondence + oracle (all 2^32 arguments in the thorough tier)', 'fastmath off: the helpers are libm (model parameter)']),
     'C19': P('proof', ['C19'], '3x3 algebra: structural, accuracy, identity and invert theorems for both formats + correspondence f32/f64 + exact oracle', partial=[]),
-    'C20': P('proof', ['C20'], 'build configuration: feature-resolution theorem on the regenerated manifests; every model theorem is stated for both fma values; correspondence and search under four builds',
+    'C20': P('proof', ['C20', 'C20b'], 'build configuration: feature-resolution theorem on the regenerated manifests; every model theorem is stated for both fma values; correspondence and search under four builds',
              builds=['default', 'fma', 'nofast', 'checked'], builds_thorough=['default', 'fma', 'nofast', 'checked']),
 }
 
